@@ -112,7 +112,8 @@ def axes(seed, full=True):
         ('F', pick([0.0, 5.0, -5.0, 20.0, -20.0], [0.37, -12.5])),
         ('apod', [('name', 'uniform'), ('name', 'rcos'), ('name', 'gaussian'), ('name', 'parabolic'),
                   ('fn', 'uniform'), ('fn', 'rcos'), ('fn', 'gaussian'), ('fn', 'parabolic')]
-         + seeded_profiles(seed) + [('tilt', 0.8), ('skew', 0.2), ('obj', 'gaussian'), ('partial', 'parabolic')]
+         + seeded_profiles(seed) + [('tilt', 0.8), ('skew', 0.2), ('obj', 'gaussian'), ('partial', 'parabolic'),
+                                    ('strict', 'parabolic')]
          + (pick([], [('expt', 1.5), ('tilt', -0.8), ('npfn', 'rcos'), ('obj', 'uniform')]))),
         ('route', [('fc', 'kL'), ('landa_D', 'kL'), ('fc', 'L'), ('fc', 'N'), ('landa_D', 'L'), ('landa_D', 'N')]),
         ('ptype', ['float', 'np64', 'int', 'npint', '0d', 'f32']),
@@ -156,7 +157,7 @@ def point(ax, **dev):
 # ---------------------------------------------------------------------------- reference profiles
 def ref_profile(apod):
     kind = apod[0]
-    if kind in ('name', 'fn', 'obj', 'partial', 'npfn', 'named'):
+    if kind in ('name', 'fn', 'obj', 'partial', 'npfn', 'named', 'strict'):
         n = apod[1]
         if n == 'uniform':
             return lambda z: 1.0
@@ -182,6 +183,10 @@ def ref_profile(apod):
         t = apod[1]
         return lambda z: math.exp(t * z)
     raise KeyError(kind)
+
+
+class DomainError(Exception):
+    """raised by the 'strict' callables when they are evaluated outside the documented domain -1/2 <= z <= 1/2"""
 
 
 class _Profile:
@@ -210,6 +215,13 @@ def lib_apod(apod):
         return functools.partial(_scaled, f, gain=1.0)
     if kind == 'npfn':                         # numpy arithmetic, returns numpy scalars
         return lambda z: np.where(np.abs(z) <= 0.5, np.float64(0.5) * (1.0 + np.cos(2.0 * np.pi * np.asarray(z))), 0.0)
+    if kind == 'strict':                       # defined on the documented domain only ("must be defined in -0.5 <= z <= 0.5")
+
+        def on_the_grating_only(z):
+            if not (-0.5 <= z <= 0.5):
+                raise DomainError(f'apodisation called with z = {z!r}; the docstring asks for a definition on -0.5 <= z <= 0.5 only')
+            return f(z)
+        return on_the_grating_only
     if kind == 'named':                        # different functions that share __name__ AND __qualname__
 
         def apo(z):
@@ -221,7 +233,7 @@ def lib_apod(apod):
 def twin(apod):
     if apod[0] == 'name':
         return ('fn', apod[1])
-    if apod[0] in ('fn', 'obj', 'partial', 'npfn', 'named'):
+    if apod[0] in ('fn', 'obj', 'partial', 'npfn', 'named', 'strict'):
         return ('name', apod[1])
     return None
 
@@ -232,7 +244,7 @@ def profile_integral(apod):
 
 
 def apod_label(apod):
-    return apod[1] if apod[0] in ('name', 'fn', 'obj', 'partial', 'npfn', 'named') else apod[0]
+    return apod[1] if apod[0] in ('name', 'fn', 'obj', 'partial', 'npfn', 'named', 'strict') else apod[0]
 
 
 # ---------------------------------------------------------------------------- grid histories
@@ -561,6 +573,19 @@ def design_tag(d, g):
 
 # ---------------------------------------------------------------------------- case: one design
 def design_case(case):
+    try:
+        return _design_case(case)
+    except DomainError as e:
+        # a user callable that is defined exactly where the docstring demands it is a valid apodisation; the design is
+        # valid, so the response has to be computed
+        d = dict(case[1])
+        key = 'domain:user-apodisation-evaluated-outside-[-1/2,1/2]'
+        return res(viol=[(key, f"fs={d['fs']}G n={d['n']} kL={d['kL']}({d['kLform']}) vd={d['vd']:g} F={d['F']:g} apod={d['apod']}: "
+                               f'FBG failed for a callable that is defined on the documented domain only: {e}')],
+                   obs='DOMAIN', nontrivial=False, stats={'fbg_calls': 1}, payload={})
+
+
+def _design_case(case):
     seed, pt = case
     d = dict(pt)
     n, F, apod, route, vd = d['n'], d['F'], d['apod'], d['route'], d['vd']
@@ -870,7 +895,8 @@ def run(ctx):
     kLs = [0.1, up(0.1), dn(8.0), 8.0]
     vds = [1e-5, up(1e-5), dn(1e-3), 1e-3]
     Fs = [-20.0, up(-20.0), 0.0, dn(20.0), 20.0]
-    lim_ap = [('name', 'uniform'), ('name', 'gaussian')] + ([] if ctx.quick else [('tilt', 0.8), ('fn', 'rcos'), ('skew', 0.2)])
+    lim_ap = [('name', 'uniform'), ('name', 'gaussian')] + ([] if ctx.quick else [('tilt', 0.8), ('fn', 'rcos'), ('skew', 0.2),
+                                                                                    ('strict', 'parabolic')])
     lim_fs = [100] if ctx.quick else [100, 20, 400]
     lim = [point(ax, fs=fs_, kL=kL, vd=vd, F=F, apod=ap, kLform='exact')
            for ap, fs_, kL, vd, F in itertools.product(lim_ap, lim_fs, kLs, vds, Fs)]
@@ -882,8 +908,9 @@ def run(ctx):
 
     # the corners of (fs, n, vdneff, kL), which the lattice (<= 3 deviations) does not reach
     cor = []
-    for apod, F in ([(('name', 'uniform'), 0.0)] if ctx.quick else
-                    [(('name', 'uniform'), 0.0), (('name', 'gaussian'), 0.0), (('name', 'uniform'), 20.0), (('name', 'gaussian'), 20.0)]):
+    for apod, F in ([(('name', 'uniform'), 0.0), (('strict', 'parabolic'), 0.0)] if ctx.quick else
+                    [(('name', 'uniform'), 0.0), (('strict', 'parabolic'), 0.0), (('name', 'gaussian'), 0.0),
+                     (('name', 'uniform'), 20.0), (('name', 'gaussian'), 20.0)]):
         for fs_, n_, vd_, kL_ in itertools.product([20, 400], [256, 4096], [1e-3, 1e-5], [0.1, 8.0]):
             cor.append(point(ax, fs=fs_, n=n_, kL=kL_, vd=vd_, F=F, apod=apod, kLform='exact'))
     ctx.rule(f'C16 corners: the 16 corners of (fs, n, vdneff, kL) (exact kL) x {len(cor) // 16} (apodisation, F) pairs = {len(cor)} designs')
